@@ -20,13 +20,24 @@ const rule = "Each case is a scenario of op lines run in its own child process o
 	"(returned error class, reports on the error channel, lastReportedError, counters, restart/re-run, HTTP status, " +
 	"Start/ManageModules/Shutdown results, module statuses, child exit) are diffed line by line. Enumerated completely: " +
 	"every kind of managed execution x 5 panic value classes x every position 1..n of the panicking item among n = 1..6 " +
-	"concurrently held items, every lifecycle phase x value class x position; " +
+	"concurrently held items, every lifecycle phase x value class x position; service worker x every panic value that is, " +
+	"wraps or matches a sentinel error the code compares with (context.Canceled, ErrRestartNow, ErrCleanExit, DeadlineExceeded; " +
+	"plain, %w-wrapped, errors.Join, Is method) x position, and sequences of them; every kind x error channel state " +
+	"(`chan unset|0|1|2`: SetErrorReportingChannel of that capacity which only `recv`/`park` ops read) with more panics than " +
+	"the channel holds, late and parked consumers, lifecycle routines and bursts with a full channel; " +
+	"API handler functions of every endpoint type additionally with the option core/devMode on (and toggled within a scenario); " +
 	"plus service-worker outcome sequences, management passes, items ending at module stop, the same module through several lives (stopped and restarted with work before, during and after), random mixed scenarios, " +
 	"free-running bursts and a malformed-op stream. Non-trivial = the case contains at least one executed panic; " +
 	"distinct = distinct op-line sequence."
 
 var mainPVs = []string{"nil", "err", "str", "rtidx", "struct"}
-var extraPVs = []string{"rtnil", "rtdiv", "rtmap", "int", "ptrerr", "nilptr", "evil", "slice"}
+var extraPVs = []string{"rtnil", "rtdiv", "rtmap", "int", "ptrerr", "nilptr", "evil", "slice", "nilstrg",
+	"canc", "wcanc", "iscanc", "joincanc", "rst", "wrst", "dl", "wdl", "cexit", "wcexit", "moderr", "nilerrptr"}
+
+// sentinelPVs: panic values that are, wrap or match every sentinel error the managed-execution code compares a
+// returned error with (worker.go: context.Canceled, ErrRestartNow; tasks.go: context.Canceled; start.go:
+// ErrCleanExit), one it does not compare with (context.DeadlineExceeded), a panic error as panic value, a typed nil.
+var sentinelPVs = []string{"canc", "wcanc", "iscanc", "joincanc", "rst", "wrst", "dl", "wdl", "cexit", "wcexit", "moderr", "nilerrptr"}
 
 var workKinds = []string{"runworker", "startworker", "svc", "mt-run-high", "mt-run-med", "mt-run-low",
 	"mt-start-high", "mt-start-med", "mt-start-low", "hook-trigger", "hook-inject"}
@@ -81,7 +92,13 @@ func (b *builder) add(kind string, lines []string, noModel bool) {
 
 // prologue: bring the modules up; `settle` before the first reading because Start() may return before the
 // start routine's goroutine has run its deferred ctrlFuncRunning.UnSet().
+// devPrologue: API scenarios built now run with the option core/devMode switched on after the start.
+var devPrologue bool
+
 func prologue(api bool) []string {
+	if api && devPrologue {
+		return []string{"api", "start", "settle", "status", "devmode on"}
+	}
 	if api {
 		return []string{"api", "start", "settle", "status"}
 	}
@@ -298,6 +315,9 @@ func (b *builder) randomCase(api bool) {
 	steps := 4 + rng.Intn(14)
 	for k := 0; k < steps || len(held) > 0; k++ {
 		doSpawn := k < steps && (len(held) == 0 || (len(held) < 6 && rng.Intn(2) == 0))
+		if api && len(held) == 0 && rng.Intn(3) == 0 {
+			lines = append(lines, "devmode "+[]string{"on", "off"}[rng.Intn(2)])
+		}
 		switch {
 		case doSpawn:
 			var kind string
@@ -466,7 +486,12 @@ func (b *builder) burstCase(api bool) {
 		items[i] = k + "=" + o
 		b.r.Count("burst:kind:" + k)
 	}
+	devPrologue = api && rng.Intn(2) == 0
 	lines := append(prologue(api), "burst "+strings.Join(items, " "))
+	devPrologue = false
+	if api && rng.Intn(2) == 0 {
+		lines = append(lines, "devmode "+[]string{"on", "off"}[rng.Intn(2)])
+	}
 	if rng.Intn(2) == 0 {
 		items2 := make([]string, 1+rng.Intn(6))
 		for i := range items2 {
@@ -522,6 +547,313 @@ func (b *builder) malformedCase() {
 	b.add("malformed", lines, false)
 }
 
+// svcSentinelSeq: a service worker whose runs panic with sentinel-like values, return restart requests and
+// errors in between, and finally finish.
+func (b *builder) svcSentinelSeq() {
+	rng := b.r.Rng
+	n := 2 + rng.Intn(4)
+	os := make([]string, 0, n+1)
+	for i := 0; i < n; i++ {
+		switch x := rng.Intn(10); {
+		case x < 6:
+			os = append(os, "p:"+sentinelPVs[rng.Intn(len(sentinelPVs))])
+		case x < 7:
+			os = append(os, "p:"+mainPVs[rng.Intn(len(mainPVs))])
+		case x < 8:
+			os = append(os, "restart")
+		default:
+			os = append(os, "err")
+		}
+	}
+	os = append(os, []string{"ok", "canceled"}[rng.Intn(2)])
+	specs := []spec{{id: "1", kind: "svc", outs: strings.Join(os, ",")}}
+	for i := rng.Intn(3); i > 0; i-- {
+		k := workKinds[rng.Intn(len(workKinds))]
+		o := healthyOutcome(rng)
+		if k == "svc" && o == "err" {
+			o = "err,ok"
+		}
+		specs = append(specs, spec{id: strconv.Itoa(len(specs) + 1), kind: k, outs: o})
+	}
+	b.r.Count("svc-sentinel-seq")
+	b.itemCase("svc-sentinel", false, specs, perm(rng, len(specs)))
+}
+
+func allPVs() []string { return append(append([]string{}, mainPVs...), extraPVs...) }
+
+func chanPrologue(api bool, capTok, stopTok string) []string {
+	if api && devPrologue {
+		return []string{"api", "chan " + capTok, "start", "settle", "status", "devmode on"}
+	}
+	if api {
+		return []string{"api", "chan " + capTok, "start", "settle", "status"}
+	}
+	return []string{"mod A ok ok " + stopTok, "mod B - - -", "chan " + capTok, "start", "settle", "status"}
+}
+
+// chanKindCase: one kind of managed execution, an error channel of the given state that nobody reads, and more
+// panics than it can hold; then a late consumer, a further panic (room again), and the stop.
+func (b *builder) chanKindCase(kind, capTok string) {
+	rng := b.r.Rng
+	api := strings.HasPrefix(kind, "api-")
+	task := strings.HasPrefix(kind, "task-")
+	pvs := allPVs()
+	capN := 0
+	if capTok != "unset" {
+		capN, _ = strconv.Atoi(capTok)
+	}
+	stopTok := []string{"ok", "ok", "p:str", "p:wcanc", "-"}[rng.Intn(5)]
+	devPrologue = api && rng.Intn(2) == 0
+	lines := chanPrologue(api, capTok, stopTok)
+	devPrologue = false
+	k := capN + 1 + rng.Intn(2)
+	id := 0
+	one := func() spec {
+		id++
+		outs := "p:" + pvs[rng.Intn(len(pvs))]
+		if kind == "svc" {
+			outs += ",ok"
+		}
+		return spec{id: strconv.Itoa(id), kind: kind, outs: outs}
+	}
+	finishAll := func(specs []spec) {
+		left := make([]int, len(specs))
+		for i, s := range specs {
+			left[i] = finishesNeeded(s)
+		}
+		for again := true; again; {
+			again = false
+			for _, i := range rng.Perm(len(specs)) {
+				if left[i] > 0 {
+					lines = append(lines, "finish "+specs[i].id)
+					left[i]--
+					again = again || left[i] > 0
+				}
+			}
+		}
+	}
+	if task {
+		// one task at a time; the same task object is run again and again
+		s := one()
+		lines = append(lines, s.line(), "finish "+s.id)
+		for i := 1; i < k; i++ {
+			lines = append(lines, "requeue "+s.id+" "+kind+" p:"+pvs[rng.Intn(len(pvs))], "finish "+s.id)
+		}
+		if capTok != "unset" {
+			lines = append(lines, "recv 1")
+		}
+		lines = append(lines, "requeue "+s.id+" "+kind+" p:"+pvs[rng.Intn(len(pvs))], "finish "+s.id, "status")
+		lines = append(lines, "requeue "+s.id+" "+kind+" ok", "finish "+s.id)
+	} else {
+		var specs []spec
+		for i := 0; i < k; i++ {
+			specs = append(specs, one())
+		}
+		for _, s := range specs {
+			lines = append(lines, s.line())
+		}
+		lines = append(lines, "status")
+		finishAll(specs)
+		if capTok != "unset" {
+			lines = append(lines, "recv 1")
+		}
+		s := one()
+		lines = append(lines, s.line())
+		finishAll([]spec{s})
+		lines = append(lines, "status")
+	}
+	if capTok != "unset" {
+		lines = append(lines, "recv all")
+	}
+	lines = append(lines, "settle", "shutdown")
+	b.r.Count("chan:kind:" + kind)
+	b.r.Count("chan:cap:" + capTok)
+	b.add("chan:"+kind, lines, false)
+}
+
+// chanMixedCase: mixed kinds and outcomes on a small channel, the consumer reading late, partially, or parked.
+func (b *builder) chanMixedCase() {
+	rng := b.r.Rng
+	capTok := []string{"0", "0", "1", "1", "2", "3", "unset"}[rng.Intn(7)]
+	set := capTok != "unset"
+	pvs := allPVs()
+	stopTok := []string{"ok", "p:str", "p:canc", "-"}[rng.Intn(4)]
+	lines := chanPrologue(false, capTok, stopTok)
+	type live struct {
+		s    spec
+		left int
+	}
+	var held []*live
+	taskBusy := false
+	nextID := 1
+	steps := 6 + rng.Intn(12)
+	for k := 0; k < steps || len(held) > 0; k++ {
+		x := rng.Intn(10)
+		switch {
+		case k < steps && (len(held) == 0 || (len(held) < 5 && x < 4)):
+			kind := workKinds[rng.Intn(len(workKinds))]
+			if !taskBusy && rng.Intn(4) == 0 {
+				kind = taskKinds[rng.Intn(len(taskKinds))]
+				taskBusy = true
+			}
+			outs := "p:" + pvs[rng.Intn(len(pvs))]
+			if rng.Intn(5) == 0 {
+				outs = randOutcome(rng, 0, false)
+			}
+			if kind == "svc" {
+				outs = randOuts(rng, kind, 70)
+			}
+			s := spec{id: strconv.Itoa(nextID), kind: kind, outs: outs}
+			nextID++
+			lines = append(lines, s.line())
+			held = append(held, &live{s, finishesNeeded(s)})
+		case set && x == 9:
+			lines = append(lines, fmt.Sprintf("recv %d", rng.Intn(3)))
+		case set && x == 8:
+			lines = append(lines, "park") // rejected by both sides while the buffer is not empty
+		default:
+			i := rng.Intn(len(held))
+			h := held[i]
+			lines = append(lines, "finish "+h.s.id)
+			h.left--
+			if h.left == 0 {
+				held = append(held[:i], held[i+1:]...)
+				if strings.HasPrefix(h.s.kind, "task-") {
+					taskBusy = false
+				}
+			}
+		}
+	}
+	lines = append(lines, "status")
+	if set {
+		lines = append(lines, "recv all")
+	}
+	lines = append(lines, "settle", "shutdown")
+	b.r.Count("chan:mixed:cap:" + capTok)
+	b.add("chan:mixed", lines, false)
+}
+
+// chanParkCase: consumers parked in a receive (the only way an unbuffered channel takes a report).
+func (b *builder) chanParkCase() {
+	rng := b.r.Rng
+	capTok := []string{"0", "0", "1"}[rng.Intn(3)]
+	pvs := allPVs()
+	lines := chanPrologue(false, capTok, "ok")
+	parks := 1 + rng.Intn(2)
+	for i := 0; i < parks; i++ {
+		lines = append(lines, "park")
+	}
+	n := parks + 1 + rng.Intn(3)
+	kinds := []string{"runworker", "startworker", "mt-run-high", "mt-start-med", "hook-trigger", "svc", "mt-run-low"}
+	for i := 0; i < n; i++ {
+		k := kinds[rng.Intn(len(kinds))]
+		outs := "p:" + pvs[rng.Intn(len(pvs))]
+		id := strconv.Itoa(i + 1)
+		if k == "svc" {
+			lines = append(lines, "spawn "+id+" svc "+outs+",ok", "finish "+id, "finish "+id)
+		} else {
+			lines = append(lines, "spawn "+id+" "+k+" "+outs, "finish "+id)
+		}
+		if rng.Intn(4) == 0 {
+			lines = append(lines, "recv all", "park")
+		}
+	}
+	lines = append(lines, "status", "recv all", "settle", "shutdown")
+	b.r.Count("chan:park:cap:" + capTok)
+	b.add("chan:park", lines, false)
+}
+
+// chanLifecycleCase: one panicking prep/start/stop routine while the error channel is unset, unbuffered or small.
+func (b *builder) chanLifecycleCase(phase, capTok string) {
+	rng := b.r.Rng
+	pvs := allPVs()
+	n := 1 + rng.Intn(4)
+	p := rng.Intn(n)
+	tok := "p:" + pvs[rng.Intn(len(pvs))]
+	var lines []string
+	decl := make([]string, n)
+	for i := 0; i < n; i++ {
+		toks := []string{"ok", "ok", "ok"}
+		if i != p && rng.Intn(4) == 0 {
+			toks[rng.Intn(3)] = "-"
+		}
+		if i == p {
+			toks[map[string]int{"prep": 0, "start": 1, "stop": 2}[phase]] = tok
+		}
+		decl[i] = fmt.Sprintf("mod %c %s %s %s", 'A'+i, toks[0], toks[1], toks[2])
+	}
+	// A failing prep/start routine runs on its own: either everything else depends on its module, or its module
+	// depends on everything else. (Next to routines of other modules a failed start routine may be launched a
+	// second time within the pass — C01's subject — and the channel would then hold the reports of two runs.)
+	if phase != "stop" && n > 1 {
+		var others []string
+		for i := 0; i < n; i++ {
+			if i != p {
+				others = append(others, string(rune('A'+i)))
+			}
+		}
+		if rng.Intn(2) == 0 {
+			lines = append(lines, decl[p])
+			for i := 0; i < n; i++ {
+				if i != p {
+					lines = append(lines, decl[i]+" "+string(rune('A'+p)))
+				}
+			}
+		} else {
+			for i := 0; i < n; i++ {
+				if i != p {
+					lines = append(lines, decl[i])
+				}
+			}
+			lines = append(lines, decl[p]+" "+strings.Join(others, ","))
+		}
+	} else {
+		lines = append(lines, decl...)
+	}
+	lines = append(lines, "chan "+capTok, "start", "settle", "status")
+	if capTok != "unset" && rng.Intn(2) == 0 {
+		lines = append(lines, "recv all")
+	}
+	lines = append(lines, "shutdown")
+	b.r.Count("chan:lifecycle:" + phase + ":" + capTok)
+	b.add("chan:lifecycle:"+phase, lines, false)
+}
+
+// chanBurstCase: free-running concurrent panics into a small channel.
+func (b *builder) chanBurstCase() {
+	rng := b.r.Rng
+	capTok := []string{"0", "1", "2", "4", "unset"}[rng.Intn(5)]
+	pvs := allPVs()
+	lines := chanPrologue(false, capTok, []string{"ok", "p:rtidx"}[rng.Intn(2)])
+	for round := 1 + rng.Intn(2); round > 0; round-- {
+		n := 2 + rng.Intn(10)
+		items := make([]string, n)
+		task := false
+		for i := range items {
+			k := workKinds[rng.Intn(len(workKinds))]
+			if !task && rng.Intn(6) == 0 {
+				task = true
+				k = taskKinds[rng.Intn(len(taskKinds))]
+			}
+			o := "p:" + pvs[rng.Intn(len(pvs))]
+			if rng.Intn(4) == 0 {
+				o = "ok"
+			}
+			if k == "svc" {
+				o += ",ok"
+			}
+			items[i] = k + "=" + o
+		}
+		lines = append(lines, "burst "+strings.Join(items, " "))
+		if capTok != "unset" {
+			lines = append(lines, "recvn")
+		}
+	}
+	lines = append(lines, "settle", "shutdown")
+	b.r.Count("chan:burst:cap:" + capTok)
+	b.add("chan:burst", lines, false)
+}
+
 func generate(r *hxlib.Run, emit func(hxlib.Case)) {
 	b := &builder{r: r}
 	rng := r.Rng
@@ -539,8 +871,48 @@ func generate(r *hxlib.Run, emit func(hxlib.Case)) {
 	b.add("corpus", []string{"mod A ok ok ok", "mod B ok p:str ok", "mod C ok ok p:int", "mgmt A=on B=off C=on", "start", "settle",
 		"enable B", "manage", "settle", "disable C", "manage", "settle", "shutdown"}, false)
 
-	// 1. the complete table: kind x panic value class x (n, position)
+	b.add("corpus", []string{"mod A ok ok ok", "mod B - - -", "start", "settle", "status", "spawn 1 svc p:canc,p:wrst,p:iscanc,p:joincanc,canceled",
+		"spawn 2 runworker p:wcanc", "finish 1", "finish 2", "finish 1", "finish 1", "finish 1", "finish 1", "status", "settle", "shutdown"}, false)
+	b.add("corpus", []string{"mod A ok ok p:str", "mod B - - -", "chan 1", "start", "settle", "status", "spawn 1 runworker p:str",
+		"spawn 2 runworker p:err", "spawn 3 mt-run-high p:nil", "finish 1", "finish 2", "finish 3", "status", "recv 1",
+		"spawn 4 task-queue p:rtidx", "finish 4", "requeue 4 task-queue ok", "finish 4", "recv all", "settle", "shutdown"}, false)
+
 	allKinds := append(append(append([]string{}, workKinds...), taskKinds...), apiKinds...)
+	// 0a. service worker x sentinel-like panic value x (n, position); sequences of them
+	for _, pv := range sentinelPVs {
+		for n := 1; n <= 3; n++ {
+			for p := 0; p < n; p++ {
+				b.tableCell("svc", pv, n, p, n == 3)
+			}
+		}
+	}
+	for i := r.Budget(60, 1500); i > 0; i-- {
+		b.svcSentinelSeq()
+	}
+	// 0b. the state of the error channel when a panic is reported
+	for _, kind := range allKinds {
+		for _, capTok := range []string{"unset", "0", "1", "2"} {
+			b.chanKindCase(kind, capTok)
+		}
+	}
+	for _, phase := range []string{"prep", "start", "stop"} {
+		for _, capTok := range []string{"unset", "0", "1", "2"} {
+			for i := r.Budget(4, 60); i > 0; i-- {
+				b.chanLifecycleCase(phase, capTok)
+			}
+		}
+	}
+	for i := r.Budget(60, 2500); i > 0; i-- {
+		b.chanMixedCase()
+	}
+	for i := r.Budget(30, 1000); i > 0; i-- {
+		b.chanParkCase()
+	}
+	for i := r.Budget(40, 1500); i > 0; i-- {
+		b.chanBurstCase()
+	}
+
+	// 1. the complete table: kind x panic value class x (n, position)
 	for _, kind := range allKinds {
 		for _, pv := range mainPVs {
 			for n := 1; n <= 6; n++ {
@@ -558,6 +930,36 @@ func generate(r *hxlib.Run, emit func(hxlib.Case)) {
 			n := 1 + rng.Intn(6)
 			b.tableCell(kind, pv, n, rng.Intn(n), true)
 		}
+	}
+	// 1b. API handler functions of every endpoint type with dev mode on (the handler-level recover has a branch on it):
+	// kind x value class x (n <= 3, position), the other value classes at random positions; dev mode switched within a scenario
+	devPrologue = true
+	for _, kind := range apiKinds {
+		for _, pv := range mainPVs {
+			for n := 1; n <= 3; n++ {
+				for p := 0; p < n; p++ {
+					b.tableCell(kind, pv, n, p, n == 3)
+				}
+			}
+		}
+		for _, pv := range append(append([]string{}, extraPVs...), "abort") {
+			n := 1 + rng.Intn(4)
+			b.tableCell(kind, pv, n, rng.Intn(n), true)
+		}
+	}
+	devPrologue = false
+	for i := r.Budget(40, 1000); i > 0; i-- {
+		kind := apiKinds[rng.Intn(len(apiKinds))]
+		pvs := allPVs()
+		lines := prologue(true)
+		for k := 1; k <= 2+rng.Intn(4); k++ {
+			lines = append(lines, "devmode "+[]string{"on", "off"}[rng.Intn(2)])
+			id := strconv.Itoa(k)
+			lines = append(lines, "spawn "+id+" "+apiKinds[rng.Intn(len(apiKinds))]+" p:"+pvs[rng.Intn(len(pvs))], "finish "+id)
+		}
+		lines = append(lines, epilogue()...)
+		r.Count("devmode-toggle:" + kind)
+		b.add("api-devmode-toggle", lines, false)
 	}
 	// 2. lifecycle routines: phase x outcome x (n, position)
 	for _, phase := range []string{"prep", "start", "stop"} {
@@ -619,7 +1021,7 @@ var (
 func suspicious(outs []string) bool {
 	for _, o := range outs {
 		if strings.HasPrefix(o, "CRASH") || o == "HANG" || strings.HasPrefix(o, "NOCHILD") || strings.Contains(o, "noentry") ||
-			strings.Contains(o, "noreturn") || strings.Contains(o, "next=timeout") || strings.Contains(o, "slow=yes") ||
+			strings.Contains(o, "noreturn") || strings.Contains(o, "last=blocked") || strings.Contains(o, "next=timeout") || strings.Contains(o, "slow=yes") ||
 			strings.Contains(o, "exec=true") || strings.Contains(o, "sync=timeout") {
 			return true
 		}
